@@ -84,8 +84,11 @@ pub enum Res {
     OptBool(Option<bool>),
     /// instance id (registry lookups), None = no instance
     Inst(Option<u16>),
-    /// (instance returned, instance replaced)
-    Inst2(Option<u16>, Option<u16>),
+    /// registry result: an entry was returned (present), and which instance answered the
+    /// identity call made through it (None: it no longer answers)
+    Reg { present: bool, ident: Option<u16> },
+    /// register succeeded: instance registered, whether an old entry was handed back
+    Registered { new: u16, replaced: bool },
     Panicked,
 }
 
@@ -109,6 +112,8 @@ pub enum CtxOp {
 
 #[derive(Clone, Copy, Debug, PartialEq, Eq, Hash)]
 pub enum Ev {
+    /// a harness actor value was created (Probe::new / Default::default)
+    New { a: u8, inst: u16 },
     Begin { c: u8, i: u16 },
     End { c: u8, i: u16, r: Res },
     Enter { a: u8, inst: u16, inc: u16, cb: Cb },
@@ -132,6 +137,8 @@ pub enum XEv {
 pub struct Entry {
     pub step: u64,
     pub time: u64,
+    /// task that was running when the entry was logged (u32::MAX: none)
+    pub task: u32,
     pub ev: Ev,
 }
 
@@ -309,7 +316,7 @@ pub fn hash_of<T: std::hash::Hash>(t: &T) -> u64 {
 
 pub fn log(ev: Ev) {
     let h = hash_of(&ev);
-    let (step, time) = vexec::stamp();
+    let (step, time, task) = vexec::stamp();
     let pushed = W.with(|w| {
         let mut w = w.borrow_mut();
         if w.teardown {
@@ -317,7 +324,7 @@ pub fn log(ev: Ev) {
         }
         let step = if w.real_mode { w.log.len() as u64 } else { step };
         w.loghash = (w.loghash.rotate_left(7) ^ h).wrapping_mul(0x9E37_79B9_7F4A_7C15);
-        w.log.push(Entry { step, time, ev });
+        w.log.push(Entry { step, time, task, ev });
         true
     });
     if pushed {
@@ -471,6 +478,7 @@ impl<const K: u8> Probe<K> {
             w.next_inst += 1;
             w.next_inst - 1
         });
+        log(Ev::New { a: role, inst });
         Probe {
             role,
             inst,
